@@ -147,6 +147,14 @@ class Repo:
             self.git("add", "-A")
             p = subprocess.run(["git", "commit", "-q", "--allow-empty", "-m", "c%d" % i], cwd=self.root, env=self.env, capture_output=True)
             self.commits.append(self.git("rev-parse", "HEAD", text=True).strip())
+        # branches / tags named like a directory or a file of the work tree (a `docs` branch next to docs/): as a
+        # REVISION argument of the API they still mean the revision
+        self.colliding_refs = []
+        for name in r.sample(["sub", "other", "sub/deep dir"], r.choice([0, 1, 2])):
+            if os.path.isdir(os.path.join(self.root, name)) and " " not in name:
+                tgt = r.choice(self.commits)
+                if self.git("branch", name, tgt, check=False, text=True) is not None:
+                    self.colliding_refs.append(name)
         # staged changes
         self.mutate_tree(r.randrange(0, 4))
         self.git("add", "-A")
@@ -187,8 +195,7 @@ def expected(repo, ra, rb, paths_from_root):
         args += [ra]
     else:
         args += [ra, rb]
-    if paths_from_root:
-        args += ["--"] + paths_from_root
+    args += ["--"] + list(paths_from_root or [])      # always: a revision may be named like a file or directory
     entries = parse_raw(repo.git(*args))
     out = []
     for status, ap, bp in entries:
@@ -264,7 +271,7 @@ def run_shard(spec):
         commits = r.sample(repo.commits, min(4, len(repo.commits)))
         refpairs = [(a, b) for a in commits for b in commits if a != b]
         r.shuffle(refpairs)
-        refpairs = refpairs[:6] + [(c, "INDEX") for c in commits[:2]] + [(c, "WORK") for c in commits[:3]] + [("INDEX", "WORK")] * 2 + [("HEAD", "WORK")] * 3
+        refpairs = refpairs[:6] + [(c, nm) for c in commits[:2] for nm in getattr(repo, "colliding_refs", [])] + [(c, "INDEX") for c in commits[:2]] + [(c, "WORK") for c in commits[:3]] + [("INDEX", "WORK")] * 2 + [("HEAD", "WORK")] * 3
         dirs = [x for x in DIRS if os.path.isdir(os.path.join(root, x))]
         allfiles = repo.tracked_or_present()
         for ci in range(spec["cmp"]):
@@ -472,8 +479,7 @@ def parse_total(repo, ra, rb, paths_root):
         args += [ra]
     else:
         args += [ra, rb]
-    if paths_root:
-        args += ["--"] + paths_root
+    args += ["--"] + list(paths_root or [])
     return parse_raw(repo.git(*args))
 
 
